@@ -338,6 +338,11 @@ def r20_6(ctx):
     ctx.check("'[styles]\\n'" in src and "f'{name} = {style}'" in src, cfgp.fq, "config template", cfgp.where, "config writes a [styles] section of `name = style` lines", "Theme.config no longer emits `[styles]` + `name = str(style)` lines")
     gens = [x for x in walk_local(cfgp.node) if isinstance(x, (ast.GeneratorExp, ast.ListComp))]
     okg = len(gens) == 1 and len(gens[0].generators) == 1 and not gens[0].generators[0].ifs and norm(gens[0].generators[0].iter) in ("sorted(self.styles.items())", "self.styles.items()")
+    if not gens:
+        # loop form: for name, style in sorted(self.styles.items()): lines.append(f"{name} = {style}")  - one unconditional append per entry
+        loops = [x for x in walk_local(cfgp.node) if isinstance(x, ast.For) and norm(x.iter) in ("sorted(self.styles.items())", "self.styles.items()")]
+        okg = len(loops) == 1 and len(loops[0].body) == 1 and isinstance(loops[0].body[0], ast.Expr) and isinstance(loops[0].body[0].value, ast.Call) and norm(loops[0].body[0].value.func).endswith(".append") and not loops[0].orelse
+        gens = loops
     ctx.check(okg, cfgp.fq, short(gens[0]) if gens else "?", cfgp.where, "config lists every entry of self.styles (no filter)",
               "Theme.config does not emit every (name, style) of self.styles (filtered or different source): entries such as null styles are missing from the text, so reading it back gives a theme with different styles")
     ff = th.method("from_file")
